@@ -46,6 +46,7 @@ type Contract struct {
 	NoPanic  bool
 	Inline   bool
 	Pure     bool // callee has no side effects at all (modifies nothing)
+	Reads    []string // ghost variables a `function` result additionally depends on
 	Function bool // pure and deterministic: the result is an (uninterpreted) function of the scalar arguments
 	Trusted  bool // contract is assumed, body not verified (external / LMDB / stdlib)
 	Loops    map[int]*LoopContract
@@ -485,6 +486,10 @@ func (cs *ContractSet) loadFile(path, repoDir string) error {
 			case "function":
 				cur.Pure = true
 				cur.Function = true
+			case "reads":
+				for _, g := range fieldsComma(rest) {
+					cur.Reads = append(cur.Reads, strings.TrimPrefix(g, "ghost_"))
+				}
 			case "trusted":
 				cur.Trusted = true
 			case "ghost":
